@@ -52,6 +52,7 @@ extern "C" void harness(void)
     for(int j = total; j < RS; j++) ring->buffer[(r + j) % RS] = nd_char();
     ring->read = r; ring->write = (r + total) % RS; ring->read_lookahead = (r + latotal) % RS;
     for(int j = 0; j < RS; j++) before[j] = ring->buffer[j];
+    RT_BEGIN();   /* constructed: from here on no allocation, no lock */
     const int freeb = RS - 1 - total;
     CHECK(tl.hasNext() == (NQ > 0), "C06 hasNext is false exactly when everything accepted has been consumed");
     CHECK(tl.hasNextLookahead() == (LA < NQ), "C06 lookahead hasNext is false exactly when the lookahead has seen everything");
@@ -98,5 +99,6 @@ extern "C" void harness(void)
     CHECK(tl.hasNext() == (NQ > 0), "C06 hasNext unchanged by a lookahead read");
 #endif
 #endif
+    RT_END();
     WITNESS("C06 end");
 }
